@@ -90,6 +90,11 @@ func (r *Result) AddSub(s Sub) {
 func (r *Result) Violate(v Violation) {
 	r.mu.Lock()
 	defer r.mu.Unlock()
+	if v.Signature == "HARNESS-FAULT" {
+		// a bug in the harness is never a verdict
+		r.Fault = v.What
+		return
+	}
 	for _, w := range r.Violations {
 		if w.Signature == v.Signature {
 			return
